@@ -469,12 +469,21 @@ def main(argv):
     rc = 0
     reported = []
     known_hits = []
-    for sig, lst in sorted(viols.items(), key=lambda kv: kv[0])[:6]:
-        ent, s, params, r, cls, det = lst[0]
-        kf = match_known(known, cls, det)
+    # known findings first, so that they cannot crowd new signatures out of the six that get triaged
+    unknown = []
+    for sig, lst in sorted(viols.items(), key=lambda kv: kv[0]):
+        kf = match_known(known, lst[0][4], lst[0][5])
         if kf is not None:
-            known_hits.append((kf, len(lst)))
-            continue
+            for i, (k0, n0) in enumerate(known_hits):
+                if k0 is kf:
+                    known_hits[i] = (k0, n0 + len(lst))
+                    break
+            else:
+                known_hits.append((kf, len(lst)))
+        else:
+            unknown.append((sig, lst))
+    for sig, lst in unknown[:6]:
+        ent, s, params, r, cls, det = lst[0]
         p2 = {k: v for k, v in params.items() if k != "trace_level"}
         # gate (a): same seed reproduces identically
         r2 = pool.map([cmdline(ent["scenario"], s, p2, wall=ent.get("wall", 60))])[0]
